@@ -96,6 +96,15 @@ RangesFailed(ev) ==
         \cup (IF ev.tta
               THEN Group("tta", LAMBDA i : LocVerdict(R, g, rs[i].s, rs[i].e, rs[i].tta, ""), codons)
               ELSE {})
+        (* the scan for TTA codons (tta.detect) on a gene whose codons at the listed single residues are TTA and that
+           holds no other TTA in any frame: exactly those codons are marked, each marker covering its codon *)
+        \cup (IF ev.ttad.on
+              THEN (IF ev.ttad.exc # "" THEN {"tta_detect/" \o Raised(ev.ttad)}
+                    ELSE LET marks(i) == {m \in DOMAIN ev.ttad.v : SubClause(R, g, rs[i].s, rs[i].e, ev.ttad.v[m]) = "ok"} IN
+                         (IF \E i \in codons : marks(i) = {} THEN {"tta_detect/every_tta_codon_of_the_gene_is_marked"} ELSE {})
+                         \cup (IF \E m \in DOMAIN ev.ttad.v : \A i \in codons : m \notin marks(i)
+                               THEN {"tta_detect/only_tta_codons_of_the_gene_are_marked"} ELSE {}))
+              ELSE {})
 
 (* the event must be a legal input of the model, else the harness is broken *)
 InputFailed(ev) ==
